@@ -28,6 +28,8 @@ fn virtual_cfg() -> Cfg {
     c.max_virtual = 4;
     c.min_virtual = 1;
     c.allow_c = true;
+    c.allow_input_x = true;
+    c.max_x = 2;
     c.w_let = 8;
     c.max_depth = 3;
     c.widths = Widths::All64;
@@ -43,7 +45,7 @@ impl Property for C14 {
         "C14"
     }
     fn rule(&self) -> &'static str {
-        "profile `virtual`: 1-4 `declare`s over output-capable signals (all operators, ite, boundary literals), placed at the top, between rows, inside loops and whiles; variables and loop counters named like the outputs they read (Q, R, IO are in the variable pool); header with or without the virtual's column; device answers that change on every call and are Z/X in a quarter of the cases; in a quarter of the cases the answer to one call is malformed (an entry dropped or repeated, two entries swapped); the caller keeps iterating after error items; every row statement carries a tag. Oracle (self-consistent): per checked row, each declared expression is evaluated by the independent evaluator over the answers the recording driver gave in the call made for that row, with an empty variable environment: the virtual entry is 64 bits wide and shows that value; if the expression reads a Z/X answer of that call the item must be an error item, not a row; the entry's expected value is the literal (number, X, Z) in the virtual's column of that source row, or X if the header has no such column. Non-trivial: >= 1 declare checked in >= 2 checked rows, or a variable named like a read output definitely in scope at a checked row, or a Z/X error item due; distinct by source + signals + driver."
+        "profile `virtual`: 1-4 `declare`s over output-capable signals (all operators, ite, boundary literals), placed at the top, between rows, inside loops and whiles; variables and loop counters named like the outputs they read (Q, R, IO are in the variable pool); header with or without the virtual's column; C and X rows (every checked item of an expansion has its own call and its own virtual values); device answers that change on every call and are Z/X in a quarter of the cases; in a quarter of the cases the answer to one call is malformed (an entry dropped or repeated, two entries swapped); the caller keeps iterating after error items; every row statement carries a tag. Oracle (self-consistent): per checked row, each declared expression is evaluated by the independent evaluator over the answers the recording driver gave in the call made for that row, with an empty variable environment: the virtual entry is 64 bits wide and shows that value; if the expression reads a Z/X answer of that call the item must be an error item, not a row; the entry's expected value is the literal (number, X, Z) in the virtual's column of that source row, or X if the header has no such column. Non-trivial: >= 1 declare checked in >= 2 checked rows, or a variable named like a read output definitely in scope at a checked row, or a Z/X error item due; distinct by source + signals + driver."
     }
     fn cases(&self, tier: Tier) -> u64 {
         match tier {
